@@ -104,7 +104,7 @@ func c11Gen(r *RNG) *c11Tmpl {
 		// a message that shares its meaning and singular text with the one before it and is nevertheless a different
 		// message (a different id): plain next to plural, or two plurals with different {default} texts.  Each
 		// must get its own catalogue entry and its own translation.
-		if i > 0 && r.Intn(4) == 0 {
+		if i > 0 && r.Intn(4) == 0 && len(t.msgs[i-1].sing) > 0 {
 			prev := t.msgs[i-1]
 			m.meaning, m.sing = prev.meaning, prev.sing
 			if !prev.plural || r.Intn(2) == 0 {
@@ -113,6 +113,11 @@ func c11Gen(r *RNG) *c11Tmpl {
 			} else {
 				m.plural, m.plur = false, nil
 			}
+		}
+		// a message with nothing in it: accepted by the compiler, renders nothing; there is nothing to translate (the
+		// empty msgid is the catalogue's header entry), extraction must cope with it
+		if r.Intn(9) == 0 {
+			m.sing, m.plural, m.plur = nil, false, nil
 		}
 		switch r.Intn(5) {
 		case 0:
@@ -382,7 +387,9 @@ func directC11(g *G, rep *Report) {
 						q = append(q, c.Default.Children()...)
 					}
 				}
-				phValue[m.ID] = mp
+				if len(m.Body.Children()) > 0 {
+					phValue[m.ID] = mp
+				}
 				return
 			}
 			if p, ok := n.(ast.ParentNode); ok {
